@@ -103,7 +103,10 @@ pub fn path_endpoints<K: Kit>(kit: &K, sp: &K::SP, problem: &Problem, path: &[Ve
     }
     let a: Vec<u64> = path[0].iter().map(|x| x.to_bits()).collect();
     let b: Vec<u64> = problem.start.iter().map(|x| x.to_bits()).collect();
-    if a != b {
+    // (a problem may list several start states; the library plans from the first one, and a
+    // planner that supported all of them could begin at any - both satisfy "the start state")
+    let is_extra = problem.extra_starts.iter().any(|e| e.iter().map(|x| x.to_bits()).collect::<Vec<u64>>() == a);
+    if a != b && !is_extra {
         f.push(("first-state-is-not-start".into(), format!("path[0]={:?} start={:?}", path[0], problem.start)));
     }
     let last = kit.unflat(path.last().unwrap());
